@@ -107,6 +107,9 @@ struct DocSpec {
     title: Option<String>,
     tag: Option<String>,
     num: Option<u64>,
+    /// further values of `num` (distinct from `num` and from each other): a multivalued column
+    #[serde(default)]
+    nums: Vec<u64>,
     inum: Option<i64>,
     /// f64 bit pattern
     score: Option<u64>,
@@ -268,6 +271,9 @@ fn analyse(index: &Index, d: &DocSpec) -> MDoc {
     };
     val(F_ID, Val::U64(d.id), true, true);
     if let Some(v) = d.num { val(F_NUM, Val::U64(v), true, true); }
+    for (i, v) in d.nums.iter().enumerate() {
+        if d.num != Some(*v) && !d.nums[..i].contains(v) { val(F_NUM, Val::U64(*v), true, true); }
+    }
     if let Some(v) = d.inum { val(F_INUM, Val::I64(v), true, false); }
     if let Some(v) = d.score { val(F_SCORE, Val::F64(v), false, true); }
     if let Some(v) = d.when { val(F_WHEN, Val::Date(v), true, true); }
@@ -330,6 +336,9 @@ fn to_tantivy_doc(d: &DocSpec) -> TantivyDocument {
     if let Some(s) = &d.title { t.add_text(fld(F_TITLE), s); }
     if let Some(s) = &d.tag { t.add_text(fld(F_TAG), s); }
     if let Some(v) = d.num { t.add_u64(fld(F_NUM), v); }
+    for (i, v) in d.nums.iter().enumerate() {
+        if d.num != Some(*v) && !d.nums[..i].contains(v) { t.add_u64(fld(F_NUM), *v); }
+    }
     if let Some(v) = d.inum { t.add_i64(fld(F_INUM), v); }
     if let Some(v) = d.score { t.add_f64(fld(F_SCORE), f64::from_bits(v)); }
     if let Some(v) = d.when { t.add_date(fld(F_WHEN), DateTime::from_timestamp_secs(v)); }
@@ -2257,12 +2266,57 @@ fn check_fast_range_kinds(ctx: &mut Ctx, n_corpora: u64, n_queries: usize) {
         if ci % 2 == 0 {
             for d in spec.docs.iter_mut() { d.num = Some(5 + rng.below(6)); }
         }
+        // two corpora of three: per commit chunk, `num` holds exactly one value per document (Full column),
+        // at most one (Optional), or 0 / 1 / >= 2 values (Multivalued, with valueless documents)
+        if ci % 3 != 0 {
+            let narrow = ci % 2 == 0;
+            let mut pos = 0usize;
+            let chunks = spec.chunks.clone();
+            for n in chunks {
+                let end = (pos + n).min(spec.docs.len());
+                let mode = rng.below(4);
+                let len = end - pos;
+                for (j, d) in spec.docs[pos..end].iter_mut().enumerate() {
+                    let mut v = |rng: &mut Rng| if narrow { 5 + rng.below(6) } else { rng.below(20) };
+                    let count = match mode {
+                        0 => 1,
+                        1 => rng.below(2),
+                        // the first document holds no value, the last one two or three, the others anything
+                        _ => if j == 0 && len >= 2 { 0 } else if j + 1 == len { 2 + rng.below(2) } else { rng.below(4) },
+                    };
+                    d.num = if count >= 1 { Some(v(&mut rng)) } else { None };
+                    d.nums = vec![];
+                    while (d.nums.len() as u64) + 1 < count {
+                        let x = v(&mut rng);
+                        if d.num != Some(x) && !d.nums.contains(&x) { d.nums.push(x); }
+                    }
+                }
+                pos = end;
+            }
+        }
         let b = match build(&spec) { Ok(b) => b, Err(_) => continue };
-        for _ in 0..n_queries {
+        // whole queries with a covering range as a clause (AllScorer is eliminated by BooleanWeight): all result paths
+        if ci % 3 != 0 {
+            let pools = pools_of(&b);
+            let u = |v: u64| TermS { f: F_NUM, v: Val::U64(v) };
+            let mut qs: Vec<Q> = vec![];
+            for (lo, hi) in [(Bd::Incl(u(0)), Bd::Unb), (Bd::Unb, Bd::Incl(u(u64::MAX))), (Bd::Incl(u(5)), Bd::Incl(u(10))), (Bd::Excl(u(0)), Bd::Excl(u(1 << 40)))] {
+                let leaf = Q::Range { f: F_NUM, lo, hi, fast: true, inverted: false };
+                if rng.chance(1, 2) { qs.extend(context_queries(&mut rng, &pools, &leaf)); }
+                qs.push(leaf);
+            }
+            check_queries(ctx, &spec, &b, &qs);
+        }
+        for qi in 0..n_queries {
             let f = if rng.chance(1, 4) { F_ID } else { F_NUM };
             let mut mk = |rng: &mut Rng| -> u64 { if f == F_ID { 995 + rng.below(80) } else { match rng.below(4) { 0 => boundary_u64(rng), _ => rng.below(14) } } };
             let mut bound = |rng: &mut Rng| -> (char, u64) { match rng.below(5) { 0 => ('u', 0), 1 | 2 => ('i', mk(rng)), _ => ('e', mk(rng)) } };
-            let (mut lo, hi) = (bound(&mut rng), bound(&mut rng));
+            let (mut lo, mut hi) = (bound(&mut rng), bound(&mut rng));
+            // every third query on `num`: a range that covers the whole column
+            if f == F_NUM && qi % 3 == 0 {
+                lo = *rng.pick(&[('u', 0), ('i', 0), ('i', 5), ('e', 0)]);
+                hi = *rng.pick(&[('u', 0), ('i', u64::MAX), ('i', 19), ('i', 10), ('e', u64::MAX)]);
+            }
             if lo.0 == 'u' && hi.0 == 'u' { lo = ('i', mk(&mut rng)); }
             let to_b = |x: (char, u64)| match x.0 { 'i' => Bound::Included(Term::from_field_u64(fld(f), x.1)), 'e' => Bound::Excluded(Term::from_field_u64(fld(f), x.1)), _ => Bound::Unbounded };
             let q = RangeQuery::new(to_b(lo), to_b(hi));
@@ -2280,9 +2334,19 @@ fn check_fast_range_kinds(ctx: &mut Ctx, n_corpora: u64, n_queries: usize) {
                 // a schema-declared fast field has a (possibly empty) column in every segment
                 let expect = {
                     let col = r.fast_fields().u64(FIELD_NAMES[f as usize]).unwrap();
-                    let full = col.index.get_cardinality() == tantivy::columnar::Cardinality::Full;
-                    let ans = ctx.model.ask(&format!("C03 ffrange {} {} {} {} {} {} {}", lo.0, lo.1, hi.0, hi.1, col.min_value(), col.max_value(), full as u8));
-                    dbg = format!("column min {} max {} full {} -> {ans}", col.min_value(), col.max_value(), full);
+                    use tantivy::columnar::Cardinality;
+                    let card = match col.index.get_cardinality() { Cardinality::Full => "f", Cardinality::Optional => "o", Cardinality::Multivalued => "m" };
+                    // the cardinality is what the documents of the segment prescribe (Lean Card.admits)
+                    if f == F_NUM {
+                        let counts: Vec<usize> = b.segs[si].iter().map(|(md, _)| md.fast.iter().filter(|(g, _)| *g == f).count()).collect();
+                        let pred = if counts.iter().any(|c| *c >= 2) { "m" } else if counts.iter().all(|c| *c == 1) { "f" } else { "o" };
+                        ctx.report.count(&format!("fast-range-column-cardinality:{card}{}", if counts.iter().any(|c| *c == 0) { ":with-valueless-docs" } else { "" }));
+                        if pred != card {
+                            ctx.report.violation("model", "C03:fast-column-cardinality-model-vs-implementation", format!("segment {si}: column `num` has cardinality {card}, the documents prescribe {pred} (values per document {:?})", counts), case.clone());
+                        }
+                    }
+                    let ans = ctx.model.ask(&format!("C03 ffrange {} {} {} {} {} {} {}", lo.0, lo.1, hi.0, hi.1, col.min_value(), col.max_value(), card));
+                    dbg = format!("column min {} max {} cardinality {} -> {ans}", col.min_value(), col.max_value(), card);
                     ans.split(':').next().unwrap_or("").to_string()
                 };
                 ctx.report.count(&format!("fast-range-kind:{real}"));
@@ -2361,7 +2425,7 @@ pub fn run(ctx: &mut Ctx) {
         "i64_to_u64 / f64_to_u64 = Gen.OrderEnc (extracted), monotone on sorted samples, term bytes = big-endian".into(),
         "range over a numeric JSON path (i64 / u64 bound term × i64 / u64 column, incl / excl / unbounded): DocSetCollector, TopDocs, Count = numeric meaning = Lean JsonRange.implMatch per segment; column type = colOf".into(),
         "phrase-prefix queries with position gaps / shifted offsets: all paths = Lean semPhrasePrefix (C03_phrase_prefix_iff)".into(),
-        "fast-field range: the scorer type search_on_u64_ff builds per segment (AllScorer / EmptyScorer / other, observed by downcast) = Lean FastRange.classify on the column's min / max / cardinality; the scorer's documents = brute force".into(),
+        "fast-field range on Full / Optional / Multivalued columns (documents with 0, 1, >= 2 values per segment; ranges covering the whole column): the scorer type search_on_u64_ff builds per segment (AllScorer / EmptyScorer / other, observed by downcast) = Lean FastRange.classifyC with the extracted cardinality condition on the column's min / max / cardinality; the scorer's documents = brute force (a document matches iff one of its values is in range); the same ranges as clauses of boolean queries through all result paths".into(),
         "JSON path fed i64- and u64-supplied values: the real column type per segment (i64 / u64 / f64), written and merged = Lean JsonRange.writtenCol / mergedCol; merged type = write-time type of the union".into(),
         "exhaustive boolean trees (≤ 2 clauses quick, ≤ 3 thorough) × occur × msm over term/all/empty leaf kinds: all paths = answer = compile model".into(),
     ];
